@@ -1,7 +1,7 @@
 (* Executable model of the session layer of asyncfix (asyncfix/connection.py, session.py and the
    journal / codec operations they call), at MESSAGE level: a decoded message is its message type
    plus the ordered list of (tag, value) strings; bytes never appear here.  The model follows the
-   Python line by line, including its defects (ledger rows D11, D12, D15, D20, D22, ...; D10 is repaired in the code).
+   Python line by line, including its defects (ledger rows D11, D15, D20, D22, ...; D10 and D12 are repaired in the code).
    No proofs here: see AF.Lemmas.Session*.v and AF.Props.C04 / C11 / C05.
 
    Conventions
@@ -335,13 +335,20 @@ Definition send_gate (m : msg) (w : world) : M unit :=
     then raise XConn
   else ret tt.
 
+(* replies to a ResendRequest (PossDupFlag = Y retransmissions, SequenceReset-GapFill) are written but not
+   journaled: the journal keeps the original messages *)
+Definition skip_journal (m : msg) : bool :=
+  (match get T43 (mtags m) with Some v => str_eqb v S_Y | None => false end)
+  || ((match mkind m with KSeqReset => true | _ => false end)
+      && (match get T123 (mtags m) with Some v => str_eqb v S_Y | None => false end)).
+
 (* encode, write, drain, journal *)
 Definition send_write (c : cfg) (m : msg) : M unit :=
   sm <- encode c m ;;
   w1 <- getw ;;
   (if wr w1 then ret tt else raise XAttribute) ;;;      (* None.write(...) *)
   emit (Wire (snd sm)) ;;;
-  persist_out (fst sm) (snd sm).
+  if skip_journal m then ret tt else persist_out (fst sm) (snd sm).
 
 (* TestRequest gate, then the write *)
 Definition send_tail (c : cfg) (m : msg) (w : world) : M unit :=
@@ -504,17 +511,16 @@ Fixpoint replay_loop (c : cfg) (rows : list (Z * msg)) (gfb gfe : Z) : M (Z * Z)
 Definition process_resend (c : cfg) (m : msg) : M unit :=
   w <- getw ;;
   (if negb (st w =? ST_AWAITING) then state_set ST_HANDLING else ret tt) ;;;
-  b <- lift (get_int T7 m) ;;
+  b0 <- lift (get_int T7 m) ;;
   e0 <- lift (get_int T16 m) ;;
+  let b := if b0 <? 1 then 1 else b0 in      (* invalid request: answer from the first message *)
   let e := if e0 =? 0 then c_maxsize c else e0 in
   rows <- recover_out b e ;;
   w1 <- getw ;;
   let cur := nout w1 in
-  set_seq_num (Some b) None ;;;
   g <- replay_loop c rows b b ;;
   (if cur <? snd g then raise XAssertion else ret tt) ;;;
   (if fst g <? cur then send_msg c (gap_fill (fst g) (z_to_dec cur)) else ret tt) ;;;
-  set_seq_num (Some cur) None ;;;
   w2 <- getw ;;
   if negb (st w2 =? ST_AWAITING) then state_set ST_ACTIVE else ret tt.
 
